@@ -86,6 +86,32 @@ def _run_task(i):
             pass
 
 
+class CallTimeLimit(Exception):
+    pass
+
+
+@contextlib.contextmanager
+def time_limit(seconds):
+    """run-time tier helper: bound ONE call into the repository by wall-clock time (nested inside the per-task watchdog, whose alarm is restored).
+    A call that needs far longer than the same call on a fresh object is reported by the harness as a failed clause of its own -- with the measured
+    bound in its name -- never as a generic violation."""
+    import signal
+
+    def h(signum, frame):
+        raise CallTimeLimit()
+    old_h = signal.signal(signal.SIGALRM, h)
+    remaining = signal.alarm(0)
+    t0 = time.time()
+    signal.alarm(int(seconds))
+    try:
+        yield
+    finally:
+        signal.alarm(0)
+        signal.signal(signal.SIGALRM, old_h)
+        if remaining:
+            signal.alarm(max(1, int(remaining - (time.time() - t0))))
+
+
 def _rt_records(t):
     """records of a run-time task; an exception that escapes from REPOSITORY code (innermost frame under /repo) on a well-formed input is a failed
     obligation, not a checker error -- exceptions raised by the checker's own code stay engine errors"""
